@@ -92,6 +92,11 @@ func (c *Command) UnmarshalXML(d *xml.Decoder, start xml.StartElement) error {
 
 	// Extract packet attributes
 	for _, attr := range start.Attr {
+		// The attributes of <command/> are unqualified (xml:lang aside): an attribute of another
+		// namespace that happens to be called node, action, ... is not ours.
+		if attr.Name.Space != "" && !(attr.Name.Local == "lang" && (attr.Name.Space == "xml" || attr.Name.Space == "http://www.w3.org/XML/1998/namespace")) {
+			continue
+		}
 		if attr.Name.Local == "action" {
 			c.Action = attr.Value
 		}
